@@ -131,9 +131,9 @@ func rwFormsOf(fn string) []string {
 	case fn == "randomblob":
 		return []string{"lit", "zero", "expr"}
 	case rwT1[fn]:
-		return []string{"now", "nowuc", "implicit", "other", "expr"}
+		return []string{"now", "nowuc", "implicit", "other", "expr", "col"}
 	case fn == "strftime":
-		return []string{"now", "implicit", "other"}
+		return []string{"now", "implicit", "other", "col"}
 	case fn == "timediff":
 		return []string{"now_other", "other_now", "now_now", "other_other"}
 	}
@@ -224,10 +224,33 @@ func rwName(fn, cs string) string {
 
 const rwOther = "'2020-01-02 03:04:05'"
 
-func rwCallText(s rwSite) string {
+func rwCallText(s rwSite) string { return rwCallTextCol(s, "b") }
+
+// rwColName is the column a time function reads its time value from (form "col") in a clause context of C14's templates.
+func rwColName(tpl, slot string) string {
+	switch tpl + "." + slot {
+	case "join.joinon":
+		return "u.b"
+	case "ctesel.proj", "cteins.proj":
+		return "v"
+	}
+	return "b"
+}
+
+// rwJoinSites puts the calls of two sites that share a clause context side by side in one expression of that clause:
+// sibling arguments of printf (visited left to right), which keeps either value visible when the other one is NULL.
+func rwJoinSites(texts []string) string {
+	if len(texts) == 1 {
+		return texts[0]
+	}
+	f := strings.TrimSuffix(strings.Repeat("%s~", len(texts)), "~")
+	return "printf('" + f + "', " + strings.Join(texts, ", ") + ")"
+}
+
+func rwCallTextCol(s rwSite, col string) string {
 	gap := map[string]string{"none": "", "space": " ", "newline": "\n", "comment": "/* c */"}[s.Gap]
 	mod := map[string]string{"none": "", "plus": ", '+1 day'", "som2": ", 'start of month', '+12 hours'", "rawunix": ", 'unixepoch'"}[s.Mod]
-	tv := map[string]string{"now": "'now'", "nowuc": "'NOW'", "other": rwOther, "expr": "'2021-02-03' || ' 04:05:06'"}
+	tv := map[string]string{"now": "'now'", "nowuc": "'NOW'", "other": rwOther, "expr": "'2021-02-03' || ' 04:05:06'", "col": col}
 	var args string
 	switch {
 	case s.Fn == "random":
@@ -289,7 +312,8 @@ func rwRender(c *rwCase, subst map[int]string) (string, error) {
 	}
 	out := t.text
 	last := -1
-	for i, s := range c.Sites {
+	for i := 0; i < len(c.Sites); {
+		s := c.Sites[i]
 		pos := -1
 		for k, sl := range t.slots {
 			if sl == s.Slot {
@@ -300,11 +324,16 @@ func rwRender(c *rwCase, subst map[int]string) (string, error) {
 			return "", fmt.Errorf("template %s: slot %q unknown or out of order", c.Tpl, s.Slot)
 		}
 		last = pos
-		x := rwCallText(s)
-		if r, ok := subst[i]; ok {
-			x = r
+		// consecutive sites with the same slot stand side by side in that clause
+		var texts []string
+		for ; i < len(c.Sites) && c.Sites[i].Slot == s.Slot; i++ {
+			x := rwCallTextCol(c.Sites[i], rwColName(c.Tpl, s.Slot))
+			if r, ok := subst[i]; ok {
+				x = r
+			}
+			texts = append(texts, rwNest(c.Sites[i].Nest, x))
 		}
-		out = strings.Replace(out, "{"+s.Slot+"}", rwNest(s.Nest, x), 1)
+		out = strings.Replace(out, "{"+s.Slot+"}", rwJoinSites(texts), 1)
 	}
 	for _, sl := range t.slots {
 		out = strings.Replace(out, "{"+sl+"}", rwSlotDefault[sl], 1)
